@@ -1919,3 +1919,7 @@ mod fuzz {
         });
     }
 }
+
+#[cfg(all(tokio_rs_bytes_verif, not(loom)))]
+#[path = "verif_bytes_mut.rs"]
+pub(crate) mod verif_hook;
